@@ -62,7 +62,7 @@ CONSTANTS
     Outcomes,    \* subset of {"val","exc","drop"}
     MaxRounds,   \* awaited operations per scenario (reuse of the helper / of the storage)
     FixVoidSrc   \* TRUE: the void-source converters propagate the source's exception / broken promise
-                 \* (repaired); FALSE: future_conv.h as pinned (they never look at the source)
+                 \* (repaired, /repo commit 51599f2); FALSE: future_conv.h as pinned (they never look at the source)
 
 VARIABLES par, s
 vars == <<par, s>>
